@@ -116,6 +116,11 @@ def gen_program(rng, ncols=None, p_try=0.0, allow_ref=True):
   prog = collections.OrderedDict()
   for c in cols:
     a = gen_expr(rng, cols, depth=rng.choice([0, 1, 1, 2]), allow_ref=allow_ref)
+    if allow_ref and rng.random() < 0.3:
+      # a row chain: the column refers to itself (or another column) in ANOTHER row, guarded by the data column, so
+      # whether there is a cycle depends on the data (locked cells meet opportunistic evaluation of their own column)
+      a = ('if', ('col', DATA), ('add', ('ref', rng.choice([c, c, rng.choice(cols)])), ('c', 1)),
+           rng.choice([('c', 0), ('col', DATA), a]))
     if rng.random() < p_try:
       a = ('try', a, rng.choice([7, 0, -3]))
     prog[c] = a
@@ -465,15 +470,16 @@ def inject_order(e, priority):
   e._make_sorted_work_items = sort_items
 
 
-class Timeout(Exception):
-  """An engine call exceeded its time limit (recalculation must terminate)."""
+class Timeout(MemoryError):
+  """An engine call exceeded its time limit (recalculation must terminate).  A MemoryError subclass because
+  Engine._recompute_one_cell wraps every other exception raised during a formula into a cell value."""
 
 
 def _alarm(_s, _f):
   raise Timeout()
 
 
-def limited(fn, seconds=15):
+def limited(fn, seconds=10):
   """Run fn() under a wall-clock limit (SIGALRM; main thread only)."""
   old = signal.signal(signal.SIGALRM, _alarm)
   signal.alarm(seconds)
